@@ -95,6 +95,7 @@ int main(int argc, char **argv) {
     if (!strcmp(en, "three")) { setenv("A", "1", 1); setenv("HOME", "/h", 1); setenv("X_Y", "z z", 1); }
     else if (!strcmp(en, "special")) { setenv("EQ", "a=b,c=d", 1); setenv("COMMA", ",,", 1); setenv("EMPTY", "", 1); }
     else if (!strcmp(en, "big")) { char *v = malloc(5001); memset(v, 'v', 5000); v[5000] = 0; setenv("BIG", v, 1); setenv("A", "1", 1); }
+    else if (!strcmp(en, "malformed")) { static char *ev[] = { "A=first", "NOEQUALSSIGN", "A=second", "=novalue_name", "EMPTY=", "EQ=a=b", "BIG=x", NULL }; environ = ev; }
     else if (!strcmp(en, "huge")) { for (int i = 0; i < 300; i++) { char k[32], v[64]; snprintf(k, sizeof k, "K%03d", i); memset(v, 'h', 30); v[30] = 0; setenv(k, v, 1); } }
     if (atoi(kv(kvs, "sudo", "0"))) setenv("SUDO_USER", "sudoer", 1);
     if (atoi(kv(kvs, "logname", "0"))) setenv("LOGNAME", "lognm", 1);
